@@ -842,11 +842,13 @@ theorem tonumber_spec_partial (p : Val → Bool) (e : Err) (v : Val) (fj : List 
         · split <;> exact ⟨_, rfl⟩
         · exact ⟨_, rfl⟩
 
-/-- the witnesses of F-12b on the model of the current tree: an empty parse yields no output,
+/-- the witnesses of F-12b on the model of the tree as found (`toTypeCur`; repaired in /repo by
+commit 18d00c4, after which `tonumber` follows `toTypeSpec`): an empty parse yields no output,
 two parsed numbers yield two outputs -/
 theorem tonumber_spec_witnesses :
-    tonumber (.tstr []) [] = [] ∧
-    tonumber (.tstr [49, 32, 50]) [.ok (vInt 1), .ok (vInt 2)] = [.ok (vInt 1), .ok (vInt 2)] ∧
+    toTypeCur isnumber (.str "cannot parse as number") (.tstr []) [] = [] ∧
+    toTypeCur isnumber (.str "cannot parse as number") (.tstr [49, 32, 50]) [.ok (vInt 1), .ok (vInt 2)]
+      = [.ok (vInt 1), .ok (vInt 2)] ∧
     (toTypeSpec isnumber (.str "cannot parse as number") (.tstr []) []).length = 1 ∧
     (toTypeSpec isnumber (.str "cannot parse as number") (.tstr [49, 32, 50]) [.ok (vInt 1), .ok (vInt 2)]).length = 1 :=
   ⟨rfl, rfl, rfl, rfl⟩
